@@ -6,7 +6,7 @@ export CARGO_NET_OFFLINE=true
 mkdir -p .build evidence replays
 python3 checklib/extract_constants.py >/dev/null
 python3 checklib/rs2lean/rs2lean.py >/dev/null
-(cd lean && lake build Rough driver Rough.Bridge.Request Rough.Bridge.Merkle Rough.Bridge.Client Rough.Bridge.Keys Rough.Bridge.SendResponses Rough.Bridge.Tables Rough.Bridge.Sign Rough.Bridge.Envelope Rough.Bridge.Config Rough.Bridge.ServerLoop Rough.Bridge.Stats Rough.Bridge.Grease Rough.Bridge.Reporter Rough.Bridge.ProcessEvents Rough.Props.GenLoop Rough.Bridge.ConfigLoaders Rough.Bridge.ResponderNew Rough.Props.GenResponder Rough.Props.GenSecrets Rough.Props.GenWorkers Rough.Props.GenConfig Rough.Props.GenCodec Rough.Props.GenRequest Rough.Props.GenMerkle Rough.Props.GenKeys Rough.Props.GenSign Rough.Props.GenEnvelope Rough.Props.GenClient Rough.Props.GenStats)
+(cd lean && lake build Rough driver Rough.Bridge.Request Rough.Bridge.Merkle Rough.Bridge.Client Rough.Bridge.Keys Rough.Bridge.SendResponses Rough.Bridge.Tables Rough.Bridge.Sign Rough.Bridge.Envelope Rough.Bridge.Config Rough.Bridge.ServerLoop Rough.Bridge.Stats Rough.Bridge.Grease Rough.Bridge.Reporter Rough.Bridge.ProcessEvents Rough.Props.GenLoop Rough.Bridge.ConfigLoaders Rough.Bridge.ResponderNew Rough.Bridge.Kms Rough.Props.GenResponder Rough.Props.GenSecrets Rough.Props.GenWorkers Rough.Props.GenConfig Rough.Props.GenCodec Rough.Props.GenRequest Rough.Props.GenMerkle Rough.Props.GenKeys Rough.Props.GenSign Rough.Props.GenEnvelope Rough.Props.GenClient Rough.Props.GenStats)
 cp /repo/Cargo.lock harness/Cargo.lock
 (cd harness && cargo build --offline)
 CARGO_TARGET_DIR=$PWD/.build/repo-target cargo build --offline --bins --manifest-path /repo/Cargo.toml
